@@ -351,6 +351,23 @@ def judge(ctx, case):
                 return list(m.VbsReader(f, blocked=True))
             k3, got_again = ctx.call(again, budget=budget)
             ctx.count('second blocked reader on a rewound file object')
+            if k3 == 'ok' and got_again == recs:
+                # ... and a real file behind a buffered reader that was sampled and rewound before the reader got it
+                def sniffed():
+                    import os
+                    import tempfile
+                    fd, path = tempfile.mkstemp(prefix='vmon-c05-')
+                    try:
+                        with os.fdopen(fd, 'wb') as fh:
+                            fh.write(ref.block(stream))
+                        with open(path, 'rb') as f:
+                            f.read(2500)
+                            f.seek(0)
+                            return list(m.VbsReader(f, blocked=True))
+                    finally:
+                        os.unlink(path)
+                k3, got_again = ctx.call(sniffed, budget=budget)
+                ctx.count('blocked files read through a buffered reader that was sampled and rewound')
             if k3 != 'ok':
                 unexpected(ctx, case, k3, got_again, 'VbsReader(blocked) after rewind')
             elif got_again != recs:
